@@ -168,6 +168,8 @@ fn data_fn(owner: &str, name: &str) -> bool {
                 | "set_order"
                 | "set_order_without_rearrangement"
                 | "eq"
+                | "overwrite"
+                | "resize"
         )
 }
 
@@ -187,6 +189,11 @@ fn arith_sig(name: &str) -> Option<(&'static str, &'static str, &'static str)> {
         "elementwise_operation_assign" => ("{L R : Type}", "(self : matrix L) (rhs : matrix R) (op : L -> R -> L)", "(matrix L * result unit)"),
         "scalar_operation" | "scalar_operation_consume_self" => ("{L S U : Type}", "(esU : Z) (self : matrix L) (scalar : S) (op : L -> S -> U)", "(result (matrix U))"),
         "scalar_operation_assign" => ("{L S : Type}", "(self : matrix L) (scalar : S) (op : L -> S -> L)", "(matrix L)"),
+        // lib.rs: the simple element-wise functions
+        "apply" => ("{L : Type}", "(self : matrix L) (f : L -> L)", "(matrix L)"),
+        "map" | "map_ref" => ("{L U : Type}", "(esU : Z) (self : matrix L) (f : L -> U)", "(result (matrix U))"),
+        "clear" => ("{L : Type}", "(self : matrix L)", "(matrix L)"),
+        "contains" => ("{L : Type}", "(eqT : L -> L -> bool) (self : matrix L) (value : L)", "bool"),
         _ => return None,
     })
 }
@@ -288,6 +295,7 @@ impl<'a> Tr<'a> {
                     Ty::Named(s) if s == "Vec" && name == "len" => Ty::Usize,
                     Ty::Named(s) if s == "Vec" && name == "as_mut_ptr" => Ty::Named("RawPtr".into()),
                     Ty::Named(s) if s == "Vec" && name == "get_unchecked" => Ty::Named("Elem".into()),
+                    Ty::Named(s) if s == "Vec" && name == "contains" => Ty::Bool,
                     Ty::Named(s) if s == "Vec" && name == "is_empty" => Ty::Bool,
                     Ty::Named(s) if s == "AsIndex" => Ty::Usize,
                     Ty::Named(s) if s == "Shape" && name == "into" => Ty::Named(s),
@@ -310,7 +318,7 @@ impl<'a> Tr<'a> {
                 if p == "without_provenance_mut" {
                     return Ty::Named("RawPtr".into());
                 }
-                if p == "NonZero::new_unchecked" {
+                if p == "NonZero::new_unchecked" || p == "cmp::min" {
                     return Ty::Usize;
                 }
                 if p == "Vec::new" || p == "Vec::with_capacity" {
@@ -456,6 +464,13 @@ impl<'a> Tr<'a> {
                         env.insert(name.clone(), Ty::Named("DataPtr".into()));
                         self.has_data = true;
                         return format!("let data := m_data self in\n  let {} := 0 in\n  {}", name, self.block(rest, env, k));
+                    }
+                }
+            }
+            if self.arith {
+                if let Stmt::Expr(Expr::MethodCall(mc), Some(_)) = s {
+                    if tstr(&mc.receiver) == "self.data" && mc.method == "clear" && mc.args.is_empty() {
+                        return format!("let self := set_data self vec_new in\n  {}", self.block(rest, env, k));
                     }
                 }
             }
@@ -612,6 +627,105 @@ impl<'a> Tr<'a> {
                     )
                 });
             }
+            // items declared inside a function body (the unwind guard of resize: a struct and its Drop impl) take no part in
+            // the function's normal (non-unwinding) execution; what they do on unwinding is the fault model's business (C02)
+            if let Stmt::Item(_) = s {
+                return self.block(rest, env, k);
+            }
+            if self.owner == "Matrix" && !self.arith && !self.ctor_mode {
+                // let guard = Guard { data: &mut self.data, .. };   a second name for self.data
+                if let Stmt::Local(l) = s {
+                    if let (Pat::Ident(pi), Some(init)) = (&l.pat, &l.init) {
+                        if let Expr::Struct(st) = &*init.expr {
+                            if st.fields.iter().any(|f| tstr(&f.member) == "data" && tstr(&f.expr) == "&mutself.data") {
+                                self.aliases.insert(pi.ident.to_string(), ("self.data".into(), String::new(), String::new()));
+                                return self.block(rest, env, k);
+                            }
+                        }
+                    }
+                }
+                if let Stmt::Expr(Expr::Call(c), Some(_)) = s {
+                    if tstr(&c.func) == "std::mem::forget" && c.args.len() == 1 && self.aliases.contains_key(&tstr(&c.args[0])) {
+                        return self.block(rest, env, k);
+                    }
+                }
+                if let Stmt::Expr(Expr::MethodCall(mc), Some(_)) = s {
+                    let recv = tstr(&mc.receiver);
+                    let on_self_data = recv == "self.data"
+                        || recv.strip_suffix(".data").map_or(false, |g| self.aliases.get(g).map_or(false, |a| a.0 == "self.data"));
+                    if on_self_data && mc.method == "truncate" && mc.args.len() == 1 {
+                        return self.expr(&mc.args[0], env, &mut |me, n, env| {
+                            format!("let self := set_data self (vec_truncate (m_data self) {}) in\n  {}", n, me.block(rest, env, k))
+                        });
+                    }
+                    if on_self_data && mc.method == "resize_with" && mc.args.len() == 2 && tstr(&mc.args[1]) == "T::default" {
+                        return self.expr(&mc.args[0], env, &mut |me, n, env| {
+                            format!("let self := set_data self (vec_resize_with (m_data self) {} dflt) in\n  {}", n, me.block(rest, env, k))
+                        });
+                    }
+                }
+            }
+            // self.data.get_unchecked_mut(lo..hi).clone_from_slice(X.data.get_unchecked(a..b));
+            // self.data.get_unchecked_mut(lo..hi).iter_mut().zip(X.data.iter().skip(a).step_by(b)).for_each(|(x, y)| *x = y.clone());
+            if let Stmt::Expr(Expr::MethodCall(mc), Some(_)) = s {
+                fn range_of(e: &Expr) -> Option<(&Expr, &Expr)> {
+                    if let Expr::Range(r) = e {
+                        if let (Some(a), Some(b), RangeLimits::HalfOpen(_)) = (r.start.as_ref(), r.end.as_ref(), &r.limits) {
+                            return Some((a, b));
+                        }
+                    }
+                    None
+                }
+                // the destination sub-slice: self.data.get_unchecked_mut(lo..hi)
+                fn dest_of(e: &Expr) -> Option<(&Expr, &Expr)> {
+                    if let Expr::MethodCall(g) = e {
+                        if g.method == "get_unchecked_mut" && tstr(&g.receiver) == "self.data" && g.args.len() == 1 {
+                            return range_of(&g.args[0]);
+                        }
+                    }
+                    None
+                }
+                if self.has_data && mc.method == "clone_from_slice" && mc.args.len() == 1 {
+                    if let (Some((lo, hi)), Expr::MethodCall(src)) = (dest_of(&mc.receiver), &mc.args[0]) {
+                        let who = tstr(&src.receiver);
+                        if src.method == "get_unchecked" && src.args.len() == 1 && who.ends_with(".data") {
+                            if let Some((a, b)) = range_of(&src.args[0]) {
+                                let who = who.trim_end_matches(".data").to_string();
+                                return self.exprs(&[lo, hi, a, b], env, &mut |me, vs, env| {
+                                    format!(
+                                        "let* dst := slice_unchecked data {} {} in\n  let* src := slice_unchecked (m_data {}) {} {} in\n  let* data := (if negb (zlen dst =? zlen src) then Panic PanicStd else Val (splice data {} (map clone src))) in\n  {}",
+                                        vs[0], vs[1], who, vs[2], vs[3], vs[0], me.block(rest, env, k)
+                                    )
+                                });
+                            }
+                        }
+                    }
+                    return "(*UNSUPPORTED clone_from_slice form*)".into();
+                }
+                if self.has_data && mc.method == "for_each" && mc.args.len() == 1 && tstr(&mc.args[0]) == "|(x,y)|*x=y.clone()" {
+                    if let Expr::MethodCall(zp) = &*mc.receiver {
+                        if let Expr::MethodCall(im) = &*zp.receiver {
+                            if zp.method == "zip" && zp.args.len() == 1 && im.method == "iter_mut" {
+                                if let (Some((lo, hi)), Expr::MethodCall(sb)) = (dest_of(&im.receiver), &zp.args[0]) {
+                                    if let Expr::MethodCall(sk) = &*sb.receiver {
+                                        let base = tstr(&sk.receiver);
+                                        if sb.method == "step_by" && sk.method == "skip" && base.ends_with(".data.iter()") {
+                                            let who = base.trim_end_matches(".data.iter()").to_string();
+                                            return self.exprs(&[lo, hi, &sk.args[0], &sb.args[0]], env, &mut |me, vs, env| {
+                                                format!(
+                                                    "let* dst := slice_unchecked data {} {} in\n  let* src := zview {} {} (zlen (m_data {})) (m_data {}) in\n  let data := splice data {} (map clone (zfirstn (Z.min (zlen dst) (zlen src)) src)) in\n  {}",
+                                                    vs[0], vs[1], vs[2], vs[3], who, who, vs[0], me.block(rest, env, k)
+                                                )
+                                            });
+                                        }
+                                    }
+                                }
+                            }
+                        }
+                    }
+                    return "(*UNSUPPORTED zip / for_each form*)".into();
+                }
+            }
             // ptr::swap(x, y);  ptr::swap_nonoverlapping(x, y, count);
             if let Stmt::Expr(Expr::Call(c), _) = s {
                 let f = tstr(&c.func);
@@ -697,6 +811,24 @@ impl<'a> Tr<'a> {
                             && !tstr(&i.then_branch).contains("break")
                             && (self.data_mode || Self::mutates_self(&i.then_branch.stmts) || i.else_branch.as_ref().map_or(false, |(_, e)| tstr(e).contains("self."))) =>
                     {
+                        if self.has_data {
+                            // both branches update the element list (and the `let mut` locals): they yield the loop state
+                            return self.expr(&i.cond, env, &mut |me, c, env| {
+                                let saved = me.mut_locals.clone();
+                                let th = me.block(&i.then_branch.stmts, &mut env.clone(), &mut |me2, _, _| format!("Val {}", me2.state_tuple()));
+                                me.mut_locals = saved.clone();
+                                let el = match &i.else_branch {
+                                    Some((_, e)) => match &**e {
+                                        Expr::Block(b) => me.block(&b.block.stmts, &mut env.clone(), &mut |me2, _, _| format!("Val {}", me2.state_tuple())),
+                                        other => format!("(*UNSUPPORTED else branch {}*)", tstr(other)),
+                                    },
+                                    None => format!("Val {}", me.state_tuple()),
+                                };
+                                me.mut_locals = saved;
+                                let unpack = me.state_unpack("st");
+                                format!("let* st := (if {} then {}\n    else {}) in\n  {}\n  {}", c, th, el, unpack, me.block(rest, env, k))
+                            });
+                        }
                         self.expr(&i.cond, env, &mut |me, c, env| {
                             let th = me.block(&i.then_branch.stmts, &mut env.clone(), &mut |_, _, _| "Val self".to_string());
                             let el = match &i.else_branch {
@@ -757,6 +889,9 @@ impl<'a> Tr<'a> {
             let mut out = String::new();
             if lhs.len() == 1 && lhs[0] == "*self" {
                 out += &format!("let self := {} in\n  ", v);
+            } else if lhs.len() == 1 && me.data_mode {
+                let f = lhs[0].trim_start_matches("self.");
+                out += &format!("let self := set_m_{} self {} in\n  ", f, v);
             } else if lhs.len() == 1 {
                 let f = lhs[0].trim_start_matches("self.");
                 out += &format!("let self := set_{}_{} self {} in\n  ", owner, f, v);
@@ -1000,6 +1135,10 @@ impl<'a> Tr<'a> {
                 if p == "Vec::new" && c.args.is_empty() {
                     return k(self, "vec_new".into(), env);
                 }
+                if p == "cmp::min" && c.args.len() == 2 {
+                    let args: Vec<&Expr> = c.args.iter().collect();
+                    return self.exprs(&args, env, &mut |me, vs, env| k(me, format!("(Z.min {} {})", vs[0], vs[1]), env));
+                }
                 if let Some(t) = p.strip_suffix("::default") {
                     if c.args.is_empty() {
                         if let Some(v) = self.cx.defaults.get(t).cloned() {
@@ -1103,6 +1242,19 @@ impl<'a> Tr<'a> {
                     other => return format!("(*UNSUPPORTED iterator chain {}*)", other.join(".")),
                 };
                 let clos = if is_assign { &m.args[0] } else { &chain[chain.len() - 2].args[0] };
+                if let Expr::Path(fp) = clos {
+                    // a function passed by name: applied to every item
+                    if nparams != 1 {
+                        return "(*UNSUPPORTED named function over pairs*)".into();
+                    }
+                    let f = cq(&tstr(fp));
+                    let t = self.fresh("d");
+                    return if is_assign {
+                        format!("let* {} := map_res (fun x => Val ({} x)) {} in\n  let self := set_data self ({}) in\n  {}", t, f, pairs, t, k(self, "tt".to_string(), env))
+                    } else {
+                        format!("let* {} := map_res (fun x => Val ({} x)) {} in\n  {}", t, f, pairs, k(self, t.clone(), env))
+                    };
+                }
                 let Expr::Closure(cl) = clos else { return "(*UNSUPPORTED closure argument*)".into() };
                 let pnames: Vec<String> = match cl.inputs.first() {
                     Some(Pat::Tuple(t)) if nparams == 2 && cl.inputs.len() == 1 && t.elems.len() == 2 => t.elems.iter().map(tstr).collect(),
@@ -1162,10 +1314,12 @@ impl<'a> Tr<'a> {
                         format!("let* {} := nn_{} es base bytes {} {} in\n  {}", t, name, vs[0], vs[1], k(me, t.clone(), env))
                     }
                     (Ty::Opt(_), "ok_or") => k(me, format!("(ok_or {} {})", vs[0], vs[1]), env),
+                    (Ty::Named(s), "contains") if s == "Vec" && me.data_mode => k(me, format!("(vec_contains eqT {} {})", vs[0], vs[1]), env),
                     (Ty::Named(s), "get_unchecked") if s == "Vec" && me.data_mode => {
                         let t = me.fresh("g");
                         format!("let* {} := get_unchecked {} {} in\n  {}", t, vs[0], vs[1], k(me, t.clone(), env))
                     }
+                    (Ty::Named(s), "len") if s == "Vec" && me.data_mode && vs[0].starts_with("(m_data ") => k(me, format!("(zlen {})", vs[0]), env),
                     (Ty::Named(s), "len") if s == "Vec" => k(me, format!("(vec_len {})", vs[0]), env),
                     (Ty::Named(s), "as_mut_ptr") if s == "Vec" && ptr_owner(&me.owner) => k(me, "base".to_string(), env),
                     (Ty::Named(s), "is_empty") if s == "Vec" => k(me, format!("(vec_len {} =? 0)", vs[0]), env),
@@ -1342,6 +1496,10 @@ const TARGETS: &[(&str, &str)] = &[
     ("Matrix", "set_order_without_rearrangement"),
     // eq.rs: PartialEq
     ("Matrix", "eq"),
+    // lib.rs: overwrite (unchecked sub-slices, clone_from_slice, the strided zip)
+    ("Matrix", "overwrite"),
+    // lib.rs: resize (normal execution; the unwind guard is the fault model's business)
+    ("Matrix", "resize"),
     // arithmetic.rs: the elementwise and scalar drivers
     ("Matrix", "elementwise_operation"),
     ("Matrix", "elementwise_operation_consume_self"),
@@ -1349,6 +1507,12 @@ const TARGETS: &[(&str, &str)] = &[
     ("Matrix", "scalar_operation"),
     ("Matrix", "scalar_operation_consume_self"),
     ("Matrix", "scalar_operation_assign"),
+    // lib.rs: apply / map / map_ref / clear / contains
+    ("Matrix", "apply"),
+    ("Matrix", "map"),
+    ("Matrix", "map_ref"),
+    ("Matrix", "clear"),
+    ("Matrix", "contains"),
     // construct.rs: the constructors
     ("Matrix", "new"),
     ("Matrix", "with_capacity"),
@@ -1491,7 +1655,12 @@ fn main() {
             aliases: HashMap::new(),
             loop_state: None,
         };
+        if *o == "Matrix" && *n == "overwrite" {
+            // the element vector of the receiver is the state the loops update
+            tr.has_data = true;
+        }
         let body = tr.block(&block.stmts, &mut env, &mut |me, v, _| me.finish(v));
+        let body = if *o == "Matrix" && *n == "overwrite" { format!("let data := m_data self in\n  {}", body) } else { body };
         let _ = tr.self_mut;
         let es = if ptr_fn(o, n) {
             " (es al base bytes : Z)"
@@ -1537,6 +1706,10 @@ fn main() {
                 "(es : Z) (fuel : nat) "
             } else if body.contains("eqT") {
                 "(eqT : A -> A -> bool) "
+            } else if body.contains("map clone") {
+                "(clone : A -> A) "
+            } else if body.contains(" dflt") {
+                "(es : Z) (dflt : A) "
             } else {
                 ""
             };
